@@ -6,7 +6,7 @@
    [ha_mux_creds l]  what a tcpmux listener demands    (user name non-empty, as Muxer.handle defines it)
    [ha_cfg_creds c]  what a web server / plugin demands (user or password non-empty)
    [ha_presented rq] the pair carried by Authorization (the zero strings when absent or malformed)              *)
-From FRP Require Import Model.HttpAuth Model.HttpAuthGroup Model.HttpAuthSites Proofs.HttpAuthProofs gen.GenRoutes gen.GenRouteSites.
+From FRP Require Import Model.HttpAuth Model.HttpAuthGroup Model.HttpAuthSites Model.HttpAuthMuxRace Proofs.HttpAuthProofs gen.GenRoutes gen.GenRouteSites.
 Open Scope Z_scope.
 
 (* ---- vhost HTTP reverse proxy: serveRouted ---------------------------------------------------------------- *)
@@ -84,6 +84,31 @@ Theorem C07_mux_handle_not_connect_closed : forall get canon passthrough rq,
   rq_form rq <> FConnect -> ha_mux_handle get canon passthrough rq = MClose.
 Proof. exact ha_mux_not_connect. Qed.
 Print Assumptions C07_mux_handle_not_connect_closed.
+
+(* ---- Muxer.handle under concurrent listener close / register / accept ------------------------------------------ *)
+(* for every schedule (any interleaving of the muxer's handle, owners accepting, listeners closing, new listeners
+   registering, of any length) from any table: the connection is delivered only to a listener that demands no credentials
+   or exactly those the CONNECT presented — the listener checked is the listener delivered to *)
+Theorem C07_mux_delivered_only_to_checked_listener : forall canon passthrough tbl rq (sched : list ha_mact) l,
+  ms_conn (ha_mrace_run canon passthrough {| ms_tbl := tbl; ms_conn := MCNew rq |} sched) = MCDelivered l ->
+  ha_mux_creds l = None \/ ha_mux_creds l = Some (ha_mux_presented rq).
+Proof. exact ha_mrace_delivered_only_to_checked_listener. Qed.
+Print Assumptions C07_mux_delivered_only_to_checked_listener.
+
+(* the routed listener closes while the connection waits for it: the connection is closed, whatever covers the host now *)
+Theorem C07_mux_closed_listener_closes_connection : forall canon passthrough tbl l ok (sched : list ha_mact),
+  ms_conn (ha_mrace_run canon passthrough {| ms_tbl := tbl; ms_conn := MCHandover l ok |}
+                        (MACloseListener (rt_id l) :: sched)) = MCClosed.
+Proof. exact ha_mrace_closed_listener_closes_connection. Qed.
+Print Assumptions C07_mux_closed_listener_closes_connection.
+
+(* reflective over today's Muxer.handle (translator unit t7): one lookup; one send, on the accept channel of the
+   listener found; one credential check, against that listener's user and password; a failed hand-over closes the
+   connection and ends handle (no second lookup, no second send) — what the step model above mirrors *)
+Theorem C07_muxer_handle_single_lookup_checked_listener :
+  muxer_handle_facts = ha_muxer_facts_expected.
+Proof. exact (ha_facts_eqb_eq muxer_handle_facts ha_muxer_facts_expected (eq_refl true)). Qed.
+Print Assumptions C07_muxer_handle_single_lookup_checked_listener.
 
 (* ---- tcpmux load-balancing groups (server/group/tcpmux.go) --------------------------------------------------- *)
 (* for every history of joins and leaves, in every order, whichever member the scheduler lets accept: a member that
